@@ -63,7 +63,7 @@ def build_dist(cfg, seed=0, pscale=1.0):
                       context_features=(cfg["ctx"] or None), num_blocks=cfg["blocks"],
                       num_mixture_components=cfg["comps"], use_residual_blocks=cfg["residual"],
                       random_mask=cfg.get("random_mask", False), use_batch_norm=cfg.get("bn", False),
-                      custom_initialization=True)
+                      activation=zoo.ACT[cfg.get("act", "relu")], custom_initialization=True)
         with torch.no_grad():
             for p in d.parameters():
                 p.add_(torch.randn(p.shape) * 0.3 * pscale)
@@ -102,9 +102,15 @@ def dist_inputs(cfg, n, seed):
 
 # ----------------------------------------------------------------------------- flows
 def sample_flow_cfg(rng, D=None, ctx=None):
+    free = D is None
     D = D or int(rng.integers(1, 4))
     ctx = int(rng.choice([0, 0, 2])) if ctx is None else ctx
-    kind = str(rng.choice(["generic", "generic", "generic", "maf", "realnvp"]))
+    kind = str(rng.choice(["generic", "generic", "generic", "maf", "realnvp"] + (["image"] if free else [])))
+    if kind == "image":
+        # a flow whose transform changes the event shape: data [C, H, W] -> squeeze -> noise [C f^2, H/f, W/f]
+        f = int(rng.choice([2, 2, 3]))
+        return {"flow": "image", "C": int(rng.integers(1, 3)), "H": f * int(rng.integers(1, 3)), "W": f * int(rng.integers(1, 3)),
+                "factor": f, "ctx": ctx, "actnorm": bool(rng.random() < 0.5), "conv": bool(rng.random() < 0.6)}
     if kind == "maf" and ctx == 0:
         return {"flow": "maf", "D": max(D, 2), "hidden": 8, "layers": int(rng.integers(1, 3)), "blocks": 1,
                 "residual": bool(rng.random() < 0.5), "random_perm": bool(rng.random() < 0.5),
@@ -157,6 +163,16 @@ def build_flow(cfg, seed=0, policy="randn1"):
                              batch_norm_between_layers=cfg["bn_between"])
         zoo.apply_policy(f, policy, seed + 1)
         return f
+    if cfg["flow"] == "image":
+        C, H, W, fct = cfg["C"], cfg["H"], cfg["W"], cfg["factor"]
+        parts = [T.SqueezeTransform(factor=fct)]
+        if cfg.get("actnorm"):
+            parts.append(T.ActNorm(C * fct * fct))
+        if cfg.get("conv"):
+            parts.append(T.OneByOneConvolution(C * fct * fct, identity_init=False))
+        f = Fl.Flow(T.CompositeTransform(parts), Dd.StandardNormal([C * fct * fct, H // fct, W // fct]))
+        zoo.apply_policy(f, policy, seed + 1)
+        return f
     D, ctx = cfg["D"], cfg["ctx"]
     ectx = ctx
     emb = None
@@ -176,6 +192,9 @@ def build_flow(cfg, seed=0, policy="randn1"):
 
 
 def flow_meta(cfg):
+    if cfg["flow"] == "image":
+        return {"shape": [cfg["C"], cfg["H"], cfg["W"]], "ctx_shape": [cfg["ctx"]] if cfg["ctx"] else None,
+                "needs_ctx": False}
     ctx_in = None
     if cfg["ctx"]:
         ctx_in = [3] if cfg.get("embed") else [cfg["ctx"]]
